@@ -792,3 +792,5 @@ for _n in range(1, 7):
     B("C02", _n)
 for _n in range(1, 7):
     B("C03", _n)
+for _n in range(1, 7):
+    B("C06", _n)
